@@ -128,6 +128,21 @@ Theorem C12_emit_once_per_removed : forall extra urrs rs urrs' ies u inf,
 Proof. exact emit_once_per_removed. Qed.
 Print Assumptions C12_emit_once_per_removed.
 
+(* Session Deletion: Close marks every URR removed, so the Deletion Response carries at most ONE usage report
+   per URR, and every one of them has TERMR *)
+Theorem C12_close_marks_removed : forall e c c' rs,
+  sess_close e c = Some (c', rs) ->
+  forall u inf', alookup u (s_urrs (c_s c')) = Some inf' -> ui_removed inf' = true.
+Proof. exact sess_close_marks_removed. Qed.
+Print Assumptions C12_close_marks_removed.
+
+Theorem C12_deletion_reports_once : forall e c c' rs u,
+  sess_close e c = Some (c', rs) ->
+  (length (ies_for u (snd (emit USAR_TRIG_TERMR true (s_urrs (c_s c')) rs))) <= 1)%nat /\
+  forall ie, In ie (snd (emit USAR_TRIG_TERMR true (s_urrs (c_s c')) rs)) -> flag_of USAR_TRIG_TERMR (ur_trig ie) = true.
+Proof. exact deletion_reports_once. Qed.
+Print Assumptions C12_deletion_reports_once.
+
 (* FINDING (the hypothesis pdr_fresh / cpdr_wf cannot be dropped): a Create PDR whose PDR id the session already
    has increments refPdrNum again (before the driver rejects the rule); Remove PDR then returns no final usage *)
 Example C12_create_pdr_existing_id_refuted :
